@@ -154,6 +154,7 @@ def main(tier):
             vd.violation(key, '%s: scenario=%s mode=%d -> %s' % (t, json.dumps(sc), x['mode'], json.dumps(brief)[:700]),
                          {'scenario': sc, 'mode': x['mode'], 'ops': hists[meta[i - 1]], 'snapshot': brief})
     ev.cov['evaluations'] = len(recs)
+    ev.cov['executions_cut_where_the_history_would_use_an_object_the_library_reported_deleted'] = sum(1 for ex in execs if ex['end'] and ex['end'].get('truncated'))
     ev.cov['distinct_nontrivial'] = nontriv
     ev.cov['traces_validated_against_impl'] = len(execs)
     ev.cov['rule'] = ('scenarios = TLC-enumerated: every set of 3..4 terminals from a catalogue (pin classes of two shapes, free points) x 3 junction positions x improvement options x follow-up '
